@@ -526,9 +526,12 @@ def run_codec_engine(ctx, spec):
         p = subprocess.run(["timeout", "2400", "coqc", "-Q", COQ, "ColumnV", path], cwd=out, stdout=subprocess.PIPE, stderr=subprocess.STDOUT, text=True,
                            preexec_fn=vlib.big_stack)
         m = re.search(r"M\s*=\s*(.*?)\n\s*:\s*list", p.stdout, re.S)
-        if p.returncode != 0 or not m:
+        r = re.search(r"\nR\s*=\s*(.*?)\n\s*:\s*list", p.stdout, re.S)
+        if p.returncode != 0 or not m or not r:
             return None, p.stdout[-1500:]
-        return [(int(a), int(b)) for a, b in re.findall(r"\((\d+),\s*(\d+)\)", m.group(1))], None
+        # tag 6: Reader.Int / Reader.Uint of some numeric entry of the case differ from ReadInt.v
+        return ([(int(a), int(b)) for a, b in re.findall(r"\((\d+),\s*(\d+)\)", m.group(1))]
+                + [(int(k), 6) for k in re.findall(r"\d+", r.group(1))]), None
     import concurrent.futures
     bad = []
     with concurrent.futures.ThreadPoolExecutor(max_workers=16) as ex:
@@ -543,10 +546,11 @@ def run_codec_engine(ctx, spec):
     cov["distinct_nontrivial"] += s["cases"]
     cov.setdefault("engines", []).append({"engine": "codec", "cases": s["cases"], "ops": s["ops"], "op_kinds": s["op_kinds"],
                                           "value_widths": s["value_widths"], "delta_classes": s["delta_classes"], "longest_sequence": s["longest_sequence"],
-                                          "wire_round_trips": s["wire_round_trips"], "rewrite_checks": s["rewrite_checks"], "k2_instances": s["k2_instances"],
+                                          "wire_round_trips": s["wire_round_trips"], "typed_reads": s.get("typed_reads", 0), "rewrite_checks": s["rewrite_checks"], "k2_instances": s["k2_instances"],
                                           "model_disagreements": len(bad), "wall_s": round(time.time() - t0, 1)})
     cov["samples"] += [{"engine": "codec", "case": x[:1500]} for x in (s.get("samples") or [])[:1]]
-    what = {1: "buffer bytes", 2: "chunk headers", 3: "last offset", 4: "decoded block", 5: "model-internal range/filter"}
+    what = {1: "buffer bytes", 2: "chunk headers", 3: "last offset", 4: "decoded block", 5: "model-internal range/filter",
+            6: "Reader.Int()/Reader.Uint() of a numeric entry (ReadInt.v)"}
     for case, tag in bad[:5]:
         ctx.violation("codec", f"commit.Buffer and the model differ in {what.get(tag, tag)} on generated case {case} (seed {ctx.seed})",
                       data={"engine": "codec", "seed": ctx.seed, "case": case, "tag": tag})
@@ -772,6 +776,6 @@ PROPS = {
                 rule="real vacuum goroutine at intervals 1-120 ms; rows without TTL, long, short, extended and reset TTLs, a long deadline inserted before the short ones; every judged observation (outside the margins) is a distinct case"),
     "C18": dict(engines=[dict(engine="race", quick=2, thorough=15), S("rows,snap,ins", 80, 1500, dfs_thorough=3000)], race=True,
                 rule="free-running workloads (updates+reads over two blocks, inserts/deletes with offset reuse, snapshots beside multi-block writers with restores, growth beside readers, index builds beside writers) on 16 cores under the race detector, reports deduplicated by function pair; plus controlled schedules with a watchdog (a thread that never finishes = deadlock)"),
-    "C19": dict(engines=[H("mix", 60, 800)],
-                rule="histories with triggers created/dropped mid-history; non-trivial = >=2 trigger events"),
+    "C19": dict(engines=[H("mix", 60, 800), S("ddl", 200, 3000, dfs_thorough=4000, locks=False)],
+                rule="histories with triggers created/dropped mid-history; non-trivial = >=2 trigger events; plus controlled schedules of writers beside a thread dropping/creating triggers and dropping an index"),
 }
